@@ -119,9 +119,25 @@ def replace (pat by_ s : Str) : Str := replaceF pat by_ (s.length + 1) s
 /-- `_replace_line_breaks` -/
 def replaceLineBreaks (o : Opts) (s : Str) : Str := if o.pretty then replace ['\n'] SENTINEL s else s
 
-/-- the tail of `generate()`: `.strip()` then the sentinel replacement -/
-def finish (o : Opts) (sql : Str) : Str :=
-  if o.pretty then replace SENTINEL ['\n'] (strip sql) else strip sql
+/-- `SENTINEL_LINE_BREAK.lower()` -/
+def SENTINEL_LOWER : Str := ['_', '_', 's', 'q', 'l', 'g', 'l', 'o', 't', '_', '_', 'l', 'b', '_', '_']
+
+/-- `.strip()` then the chain of `sql = sql.replace(<pattern>, "\n")` calls under `if self.pretty` -/
+def finishWith (chain : List Str) (o : Opts) (sql : Str) : Str :=
+  if o.pretty then chain.foldl (fun acc p => replace p ['\n'] acc) (strip sql) else strip sql
+
+/-- the chain generate() has today (pinned against the source by `generated_sentinel_chain_ok`):
+    the sentinel, then its lower-cased form -/
+def sentinelChain : List Str := [SENTINEL, SENTINEL_LOWER]
+
+def finish (o : Opts) (sql : Str) : Str := finishWith sentinelChain o sql
+
+/-- the tail as it was before the lower-cased sentinel was handled (kept for the snapshot witness) -/
+def finishOld (o : Opts) (sql : Str) : Str := finishWith [SENTINEL] o sql
+
+/-- `str.lower()` on ASCII letters (what `normalize_func` does to an already rendered function name) -/
+def lowerAscii (s : Str) : Str :=
+  s.map fun c => if 'A' ≤ c ∧ c ≤ 'Z' then Char.ofNat (c.toNat + 32) else c
 
 /-- a quote-free string literal through literal_sql → escape_str → generate -/
 def literalOut (o : Opts) (v : Str) : Str := finish o ('\'' :: (replaceLineBreaks o v ++ ['\'']))
